@@ -35,6 +35,7 @@ var histLists = map[string]ListSpec{
 	"other":    {Serials: []int64{101, 104}, Issuer: "other", Signer: "other", Number: 6},
 	"v1":       {Serials: []int64{105}, V1: true},
 	"pem":      {Serials: []int64{106}, PEM: true, Number: 7},
+	"rolled":   {Serials: []int64{102, 103}, Signer: "other", Number: 8}, // the CA's list, signed with another certificate's key
 }
 var histCerts = map[string]CertSpec{
 	"c101": {Serial: 101, CDP: []string{"/a"}}, "c102": {Serial: 102, CDP: []string{"/a"}}, "c103": {Serial: 103, CDP: []string{"/a"}},
@@ -46,6 +47,7 @@ var histCerts = map[string]CertSpec{
 	"ldap":  {Serial: 101, CDP: []string{"ldap://dir.example/cn=crl"}},
 	"mixed": {Serial: 102, CDP: []string{"ldap://dir.example/cn=crl", "/a"}},
 	"two":   {Serial: 103, CDP: []string{"/a", "/b"}},
+	"r900":  {Serial: 900, Issuer: "other", CDP: []string{"/a"}}, // a client under the other CA naming the same distribution point
 }
 
 func signerOf(name string) string {
@@ -93,6 +95,7 @@ func refHistory(cfg HistCfg, steps []Step) []string {
 		list   string          // in-force list ("" = none)
 		chain  map[string]bool // certificates of the handshake that created the entry (kept until loaded)
 		signer string          // signer stored with the in-force list ("" = none)
+		failed string          // the list whose signature the last refresh could not verify ("" = none; in memory only)
 	}
 	serve := map[string]string{}
 	entries := map[string]*entry{}
@@ -100,13 +103,13 @@ func refHistory(cfg HistCfg, steps []Step) []string {
 	disk := map[string]diskRec{}
 	var out []string
 	// one attempt to (re)load an entry with the given resolver context
-	attempt := func(id string, e *entry, available map[string]bool) {
+	attempt := func(id string, e *entry, available map[string]bool) bool {
 		if len(e.locs) == 0 {
-			return
+			return false
 		}
 		l := serve[e.locs[0]] // every scripted state answers the download, so the first member decides
 		if !listAcceptable(l, cfg.SigMode, available) {
-			return
+			return false
 		}
 		e.list = l
 		e.signer = ""
@@ -116,6 +119,7 @@ func refHistory(cfg HistCfg, steps []Step) []string {
 		if cfg.Storage == "disk" {
 			disk[id] = diskRec{e.list, e.signer}
 		}
+		return true
 	}
 	refreshAll := func() {
 		ids := make([]string, 0, len(entries))
@@ -132,7 +136,15 @@ func refHistory(cfg HistCfg, steps []Step) []string {
 				if e.signer != "" {
 					av[e.signer] = true
 				}
-				attempt(id, e, av)
+				// updateCrlEntry: a verified update clears the note, a failed verification (of a list that could be
+				// read) leaves a note of that list
+				if attempt(id, e, av) {
+					e.failed = ""
+				} else if l := serve[e.locs[0]]; cfg.SigMode == "verify" {
+					if ls, ok := histLists[l]; ok && !ls.Crit && (ls.BadSig || !av[signerOf(l)]) {
+						e.failed = l
+					}
+				}
 			}
 		}
 	}
@@ -193,36 +205,56 @@ func refHistory(cfg HistCfg, steps []Step) []string {
 				if e.list == "" && cfg.Fetch == "fetch_actively" {
 					attempt(id, e, chain)
 				}
-			}
-			verdict := "accept"
-			for _, e := range entries {
-				if e.list == "" {
-					continue
-				}
-				ls := histLists[e.list]
-				li := ls.Issuer
-				if li == "" {
-					li = "ca"
-				}
-				if li != issuer {
-					continue
-				}
-				for _, s := range ls.Serials {
-					if s == cs.Serial {
-						verdict = "revoked"
+				// tryUpdateSignatureCertFromChain: an entry that existed, is loaded and carries a note — if this chain
+				// verifies the noted list, its signer is stored with the entry and the note is cleared
+				if !added && e.list != "" && e.failed != "" && cfg.SigMode == "verify" {
+					if fl := histLists[e.failed]; !fl.BadSig && chain[signerOf(e.failed)] {
+						e.signer = signerOf(e.failed)
+						e.failed = ""
+						if cfg.Storage == "disk" {
+							disk[id] = diskRec{e.list, e.signer}
+						}
 					}
 				}
 			}
-			if cfg.Strict && len(cs.CDP) > 0 {
-				if !usable || entries[id].list == "" {
-					verdict = "error"
+			lookup := func() string {
+				verdict := "accept"
+				for _, e := range entries {
+					if e.list == "" {
+						continue
+					}
+					ls := histLists[e.list]
+					li := ls.Issuer
+					if li == "" {
+						li = "ca"
+					}
+					if li != issuer {
+						continue
+					}
+					for _, s := range ls.Serials {
+						if s == cs.Serial {
+							verdict = "revoked"
+						}
+					}
+				}
+				if cfg.Strict && len(cs.CDP) > 0 {
+					if !usable || entries[id].list == "" {
+						verdict = "error"
+					}
+				}
+				return verdict
+			}
+			verdict := lookup()
+			// a background first load is started when the entry is new; it refreshes everything known.  The handshake's
+			// own lookup normally comes first, but nothing orders the two: if the load wins the entry lock the lookup
+			// waits for it and answers from the loaded state.  Both answers are the implementation's right.
+			if usable && added && cfg.Fetch == "fetch_background" {
+				refreshAll()
+				if post := lookup(); post != verdict {
+					verdict += "/" + post
 				}
 			}
 			out = append(out, verdict)
-			// a background first load is started when the entry is new; it refreshes everything known
-			if usable && added && cfg.Fetch == "fetch_background" {
-				refreshAll()
-			}
 		}
 	}
 	return out
@@ -337,6 +369,13 @@ func compareHist(h Hist) (int, string) {
 	}
 	for i := range h.Obs {
 		o, w := h.Obs[i], h.Want[i]
+		if k := strings.Index(w, "/"); k >= 0 {
+			// two admissible answers (see refHistory): the observation has to be one of them
+			if o == w[:k] || o == w[k+1:] {
+				continue
+			}
+			w = w[:k]
+		}
 		if o == w {
 			continue
 		}
@@ -357,7 +396,7 @@ func compareHist(h Hist) (int, string) {
 func refRevocable(h Hist, i int) bool {
 	cfg := h.Cfg
 	cfg.Strict = false
-	return refHistory(cfg, h.Steps)[i] == "revoked"
+	return strings.Contains(refHistory(cfg, h.Steps)[i], "revoked")
 }
 
 // ---------------------------------------------------------------- Coq emission (Repo.v)
@@ -452,7 +491,13 @@ func coqHist(idx int, h Hist) string {
 		st = append(st, coqStep(s))
 		code := 0
 		if i < len(h.Obs) {
-			switch h.Obs[i] {
+			ob := h.Obs[i]
+			if i < len(h.Want) {
+				if k := strings.Index(h.Want[i], "/"); k >= 0 && ob == h.Want[i][k+1:] {
+					ob = h.Want[i][:k] // the other admissible order of lookup and background load; the model uses the first
+				}
+			}
+			switch ob {
 			case "accept":
 				code = 1
 			case "revoked":
